@@ -409,8 +409,17 @@ package shaping
 //@ trusted RunIterator.Restore
 //@   params it
 //@   modifies nothing
-//@ trusted breaker.nextWordBreak
-//@   modifies *l; all(segmenter.LineIterator); all(segmenter.GraphemeIterator)
+// nextWordBreak: a candidate handed out is recorded unchanged (position AND mandatory flag) so that it is handed out
+// again, identically, after markWordOptionUnused; a fresh candidate is the raw UAX #14 one.
+//@ func breaker.nextWordBreak C03
+//@   mode int
+//@   requires wsOK(l)
+//@   ensures [replayed-as-recorded] implies(old(l.isUnusedWord), result1 && result0.breakAtRune == old(l.unusedWordBreak.breakAtRune) && result0.required == old(l.unusedWordBreak.required))
+//@   ensures [recorded-for-replay] implies(result1, !l.isUnusedWord && l.unusedWordBreak.breakAtRune == result0.breakAtRune && l.unusedWordBreak.required == result0.required)
+//@   ensures [fresh-is-raw] implies(!old(l.isUnusedWord) && result1, result0.breakAtRune == l.wordSegmenter.attributeIterator.pos-1 && 0 <= result0.breakAtRune &&
+//@     | result0.required == (l.wordSegmenter.attributeIterator.src.attributes[result0.breakAtRune+1]&2 != 0 && result0.breakAtRune != l.totalRunes-1))
+//@   ensures [previous-shifted] implies(!old(l.isUnusedWord) && result1, l.previousWordBreak.breakAtRune == old(l.unusedWordBreak.breakAtRune))
+//@   modifies l.isUnusedWord; l.unusedWordBreak; l.previousWordBreak; l.wordSegmenter.attributeIterator.pos; l.wordSegmenter.attributeIterator.lastBreak
 //@ trusted breaker.nextGraphemeBreak
 //@   modifies *l; all(segmenter.LineIterator); all(segmenter.GraphemeIterator)
 //
